@@ -39,9 +39,12 @@ BENIGN = {
 EXPECT_QUIET = {"C13e"}
 
 
+ONLY = set(filter(None, os.environ.get("REGRESS_ONLY", "").split(",")))     # restrict to these checks (when given)
+
+
 def checks_for(name):
     if name in BENIGN:
-        return BENIGN[name]
+        return [c for c in BENIGN[name] if not ONLY or c in ONLY]
     if name == "mutants":
         return []
     return [name[:3]]
